@@ -74,6 +74,8 @@ def run_rerender(ctx):
     g = gen.ExprGen(rng, funcs=("sin", "sqrt", "f"))
     for k in range(300 if quick else 6000):
         programs.append("f(a)=a\n" + g.expression(rng.choice([2, 4, 6])) + rng.choice(["\n", ";"]) + "x=[1,2;3,4];x*x\n")
+    programs += ["7e-x\n", "x=3;7e-x\n", "2e x\n", "1.5e-(3)\n", "10e+1\n", "3e\n", "2e--1\n", "1e5m\n", "2e-3 e\n", "10e + 1e-x 12.5e3\n", "1e\n", "1e-\n",
+                 "2e-e\n", "1.5e\n", "3e-2e-1\n", "4e - 1\n", "x=1;2e-x;x e - 1\n", "12.5e3e\n", "1e1e1\n", "5 m2\n", "5m 2\n", "2x\n", "2 x\n", "x2\n", "ab\n", "a b\n"]
     programs += ["1 +\n2", "x = \n", "[1, 2; 3]\n", "(1\n)", "1 2\n", "5 as\n", "# 1\n", "delete 3\n", "1e5m\n2e-3 e\n10e + 1e-x 12.5e3 1.\n",
                  "x=1;;;;x\n\n\n;x\n", ";\n", "", "\n\n", "[1,2\n;3,4]\n", "[1;\n2]\n", "f(a,\nb)=a\n"]
     # phase 1: tokens of the originals (implementation and model agree or C04 reports it)
@@ -118,6 +120,38 @@ def run_rerender(ctx):
                 rep.violation("re-rendering (%s) changes the outcome of %r" % (mode, programs[k]), case=gen.hist_case("x", [t + "\n"]),
                               impl=dict(original=o[:8], variant=v[:8], variant_text=t), stream="outcomes", oracle="same results and diagnostic kinds expected")
     rep.oblige("re-rendered programs give the original's results and diagnostic kinds (%d variants)" % len(variants), bad == 0, "%d differ" % bad)
+    separator_choice_on_binary(ctx, rng, 40 if quick else 400)
+
+
+def separator_choice_on_binary(ctx, rng, count):
+    """the same statements in a preload file separated by newlines and by `;` (the real binary, file mode): same
+    output lines up to positions and the separator's own spelling — also when one statement is malformed"""
+    from . import front
+    core.build_impl(ctx["repo"], need_binary=True)
+    rep = ctx["rep"]
+    broken = ["1 +", "x = ", ")", "5 as", "delete 3", "1 2", "f(a+1) = 2"]
+    bad = n = 0
+    POSRE = re.compile(r"Line \d+, Column \d+")
+    SEPRE = re.compile(r"found '(\\\\n|\\n|;)'")
+    def norm(t):
+        return SEPRE.sub("found <sep>", POSRE.sub("Line _, Column _", t))
+    for lines in props.statement_programs(rng, count, faulty=0.2):
+        lines = [l for l in lines if "[" not in l][:6] or ["1"]
+        if n % 2 == 0:
+            lines.insert(rng.randrange(len(lines) + 1), rng.choice(broken))
+        n += 1
+        outs = []
+        for sep in ("\n", ";", " ;\n"):
+            s = dict(id="sep", tab=4, file=sep.join(lines) + sep, expr="x; y", stdin=None)
+            outs.append(front.run_binary(ctx, s))
+            rep.evaluations += 1
+        if any(norm(o[1]) != norm(outs[0][1]) or o[0] != outs[0][0] for o in outs[1:]):
+            bad += 1
+            if bad <= 3:
+                rep.violation("file mode: newline-separated and `;`-separated statements give different outputs for %r" % lines,
+                              case="front-sep " + repr(lines), impl=[o[1] for o in outs], stream="separators-binary",
+                              oracle="same results and diagnostic kinds expected, only positions may differ")
+    rep.oblige("separators-binary: %d programs (half with one malformed statement) through the real binary with newline / `;` / ` ;\\n`" % n, bad == 0, "%d differ" % bad)
 
 
 # ------------------------------------------------------------------------------------------------
@@ -138,7 +172,8 @@ class BodyGen:
     def atom(self):
         r = self.rng.random()
         if r < 0.3:
-            return self.rng.choice(["1", "2.5", "0", "10", "1e3", "0.001", "12.75", "1e21", "1e-7", "170"])
+            return self.rng.choice(["1", "2.5", "0", "10", "1e3", "0.001", "12.75", "1e21", "1e-7", "170", "1e-17", "3e-20", "2e-16", "2.3e-16",
+                                    "4.9e-324", "1e-320", "1e-200", "1e300", "0.1", "9007199254740993"])
         if r < 0.6:
             return self.rng.choice(["a", "b", "u", "v", "x1", "pi", "e", "i", "dotx", "crossy", "e2", "m1", "_t"])
         if r < 0.8:
@@ -224,6 +259,11 @@ def run_listing(ctx):
                               case=cases[k], impl=dict(defined=d, listed=r), stream="retokenise",
                               oracle="same token kinds, number values, units and identifiers expected (row separators may be line breaks)")
     rep.oblige("listed bodies re-tokenise to the defined bodies (%d listings)" % len(retok), bad == 0 and shape_bad == 0, "%d differ" % bad)
+    # redefinitions (other parameter names, literals) and tiny / huge literals: the listing shows what was written last
+    redef = ["lf(x) = x + 1\nlf(y) = y * 2\nlf\nlf(3)\n", "lf(0, p) = p\nlf(0, q) = q + 1\nlf\n", "lf(n) = n\nlf(k) = k * lf(k - 1)\nlf(0) = 1\nlf\n",
+             "lf(a) = a + 1e-17\nlf\n", "lf(a) = a * 3e-20 km\nlf\n", "lf(a) = [2e-16, a]\nlf\n", "lf(1e-20) = 1\nlf\n", "lf(a) = a / 1e-17\nlf\nlf(1)\n",
+             "lf(a) = a + 4.9e-324\nlf\n", "lf(a, a) = a\nlf\n", "lf(x) = x\nww = lf\nww(y) = y + 1\nww\nlf\n"]
+    judges.do_stream(ctx, "redefinitions", (gen.hist_case("q%d" % k, [t]) for k, t in enumerate(redef)), P, monitors={"print_mismatch"})
     # multi-signature listings: one entry per signature, in order
     multi = ["mf(a) = a\nmf(0) = 1\nmf(a, b) = a + b\nmf\n", "mf(0) = 1\nmf(a) = a dot a\nmf(a) = 2\nmf\n", "mf(a) = [1, 2; 3, 4]\nmf(b, 1) = b\nmf\n"]
     judges.do_stream(ctx, "multi-signature", (gen.hist_case("m%d" % k, [t]) for k, t in enumerate(multi)), P)
